@@ -99,6 +99,7 @@ var foreignTail = []input{
 var libFiles = map[string]string{
 	"m.gr":     "if lmode==1 {deep(0)}\nif lmode==2 {pf(1)}\nif lmode==3 {1+nosuchvar}\nif lmode==4 {for true {}}\nprintln(\"m loaded\", lmode)\nlmode*10\n",
 	"walk.gr":  "walk(steps)\n",
+	"slowf.gr": "slf_t=0\nfor slf_i = 100000 { slf_t = slf_t + slf_i }\nslf_t\n",
 	"libok.gr": "lk = 5\nfunc lkf(a){a+lk}\nprintln(\"lib ok\")\nlkf(2)\n",
 }
 
@@ -132,7 +133,7 @@ var loadTail = []input{
 // not survive in the function cache; the probes call the same functions with the same arguments afterwards.
 var catchPrelude = []input{
 	{src: `cdeep = func(n){if n<=0 {0} else {1+cdeep(n-1)}}; cg = func(n){catch(cdeep(n))}; cnest = func(k){if k<=0 {cg(6); nosuchname} else {cnest(k-1)}}`, skel: "(S)"},
-	{src: `cslow = func(n){catch(slow(n))}; csl = func(n){catch(sleep(n))}; cuj = func(n){catch(unjson("[" + str(n) + ", cslowx(9)]"))}; cev = func(n){catch(eval("slow(" + str(n) + ")"))}`, skel: "(S)"},
+	{src: `cslow = func(n){catch(slow(n))}; csl = func(n){catch(sleep(n))}; cuj = func(txt){catch(unjson(txt))}; cld = func(f){catch(load(f))}; cev = func(n){catch(eval("slow(" + str(n) + ")"))}`, skel: "(S)"},
 	{src: `cg(2)`, skel: "(S (C 1 (S (C 1 (S)))))"},
 }
 
@@ -163,6 +164,13 @@ func catchFamily() []famFail {
 			[]string{`csl(0.05)`}},
 		famFail{input{src: fmt.Sprintf(`cev(%d).nosuch.x + nosuchname`, slowN), skel: "(S e)", fail: "deadline-in-eval-under-catch", maxMs: 2 * time.Millisecond, neutral: true},
 			[]string{fmt.Sprintf(`cev(%d)`, slowN)}},
+		// every route that evaluates TEXT (in another or in this state) under catch() in a memoizable function
+		famFail{input{src: `cuj("ujt=0; for uji = 100000 { ujt = ujt + uji }; ujt").value + 1`, skel: "(S e)", fail: "deadline-in-unjson-under-catch", maxMs: 2 * time.Millisecond},
+			[]string{`cuj("ujt=0; for uji = 100000 { ujt = ujt + uji }; ujt").value + 1`}},
+		famFail{input{src: `cld("slowf").value + "x"`, skel: "(S e)", fail: "deadline-in-load-under-catch", maxMs: 2 * time.Millisecond},
+			[]string{`cld("slowf").value + 1`}},
+		famFail{input{src: fmt.Sprintf(`cev(%d).value + "x"`, slowN+7), skel: "(S e)", fail: "deadline-in-eval-under-catch-value", maxMs: 2 * time.Millisecond, neutral: true},
+			[]string{fmt.Sprintf(`cev(%d).value + 1`, slowN+7)}},
 		famFail{input{src: `cg(400).nosuch.x + nosuchname`, skel: "(S (C 1 d))", fail: "depth-overflow-under-catch"},
 			[]string{`cg(400).err`}},
 	)
